@@ -40,7 +40,12 @@ type Session struct {
 	total  time.Duration
 	frames [][]string // mirror of what the solver holds, per push level (for restarts)
 	restarts int
+	wedged     int
+	muted      bool
+	mutedAbove int
 }
+
+var progressHook func(s *Session)
 
 func solverPath(name string) string {
 	switch name {
@@ -142,16 +147,23 @@ func (s *Session) Pop() {
 		s.frames = s.frames[:len(s.frames)-1]
 	}
 	s.depth--
+	if s.muted && len(s.frames)-1 < s.mutedAbove {
+		s.muted = false
+		s.wedged = 0
+	}
 }
 
 func (s *Session) Add(e PCEntry) { s.send(e.SMT() + "\n") }
 
 // CheckWith: is PC ∧ extra satisfiable?
 func (s *Session) CheckWith(extra *Term) Verdict {
-	if s.dead {
+	if s.dead || s.muted {
 		return Unknown
 	}
 	s.nquery++
+	if s.nquery%500 == 0 && progressHook != nil {
+		progressHook(s)
+	}
 	t0 := time.Now()
 	s.raw("(push 1)\n(assert " + extra.s + ")\n(check-sat)\n(pop 1)\n")
 	var line string
@@ -159,11 +171,23 @@ func (s *Session) CheckWith(extra *Term) Verdict {
 	select {
 	case line, ok = <-s.lines:
 	case <-time.After(time.Duration(envInt("GCV_SESSION_TIMEOUT_MS", 250)*4+1500) * time.Millisecond):
-		// the solver ignored its own timeout (seen with string constraints): start over
+		// the solver ignored its own timeout (seen with string constraints and wide modular
+		// arithmetic): start over. If the rebuilt assertion stack wedges it again and again, stop
+		// asking until the stack has shrunk below the depth at which it went wrong (answering
+		// "unknown" is always sound: it only costs precision).
+		s.wedged++
+		if s.wedged >= 2 {
+			s.mutedAbove = len(s.frames) - 1
+			s.muted = true
+			if os.Getenv("GCV_TRACE") != "" {
+				fmt.Fprintf(os.Stderr, "session muted above depth %d after repeated watchdog timeouts\n", s.mutedAbove)
+			}
+		}
 		s.restart()
 		s.total += time.Since(t0)
 		return Unknown
 	}
+	s.wedged = 0
 	s.total += time.Since(t0)
 	if d := time.Since(t0); d > 300*time.Millisecond && os.Getenv("GCV_TRACE") != "" {
 		h := extra.s
